@@ -473,6 +473,65 @@ def m1_statistics_formulas(F, r):
         r.fail("get_variance_mean: accumulation", "the accumulation step is not (acc.0 + dev*dev, acc.1 + dev) with dev = value - mean", F.loc(ST + "get_variance_mean"))
 
 
+def s4_relative_distance_bounded(F, r):
+    """rewards stay within their documented range because the relative distance of two fitness values is bounded by 1: |a - b| / max(|a|, |b|) — normalised by the LARGER
+    magnitude of the very two values that are subtracted (canonical expression of the distance closure). Normalising by one side only is unbounded for a zero / small reference."""
+    root = DS + "get_relative_distance"
+    if root not in F.fns:
+        raise AnchorError(root)
+    cands = [g for g in F.family(root) if any(s_["r"]["k"] == "bin" and s_["r"].get("op") == "Div" and s_["r"].get("ty") in ("f64", "f32") for _, _, s_ in mir.stmts(F.fns[g]))]
+    if len(cands) != 1:
+        r.ok("get_relative_distance: normalisation", f"not decided: {len(cands)} bodies with a float division")
+        return
+    g = cands[0]
+    fn = F.fns[g]
+    divs = [s_ for _, _, s_ in mir.stmts(fn) if s_["r"]["k"] == "bin" and s_["r"].get("op") == "Div" and s_["r"].get("ty") in ("f64", "f32")]
+    if len(divs) != 1:
+        r.ok("get_relative_distance: normalisation", "not decided: several divisions")
+        return
+    st = divs[0]
+    num_, den = mir.expr(fn, st["r"]["o"][0]), mir.expr(fn, st["r"]["o"][1])
+
+    def is_call(e, suffix):
+        return e[0][0] == "call" and e[0][1].endswith(suffix) and not e[1]
+    ok_num = is_call(num_, "<impl f64>::abs") and num_[0][2][0][0][0] == "bin" and num_[0][2][0][0][1] == "Sub"
+    if not ok_num:
+        r.ok("get_relative_distance: normalisation", "not decided: the numerator is not |a - b|")
+        return
+    a, b = num_[0][2][0][0][2], num_[0][2][0][0][3]
+    want = {("abs", a), ("abs", b)}
+    got = set()
+    if is_call(den, "<impl f64>::max"):
+        for x in den[0][2]:
+            if is_call(x, "<impl f64>::abs"):
+                got.add(("abs", x[0][2][0]))
+            else:
+                got.add(("other", x))
+    if got == want:
+        r.ok("get_relative_distance: normalisation", "|a - b| / max(|a|, |b|): bounded by 1 (2 for opposite signs)")
+    else:
+        r.fail("get_relative_distance: normalisation", "the distance |a - b| is not divided by max(|a|, |b|) of the same two values: normalised by one side (or a constant) it is unbounded "
+               "when the reference fitness is zero / small / negative — rewards leave their documented range and corrupt the learner's statistics", F.loc(g, st.get("ln")))
+
+
+def v3_window_per_generation(F, r):
+    """the variation criterion looks at the fitness of the last `sample` GENERATIONS: the sample window is addressed by the generation counter, so several polls within one
+    generation (the simulator polls once per initial solution) overwrite one slot instead of filling the window with copies of the same fitness"""
+    ms = [i for i in F.fns if i.startswith("rosomaxa::termination::min_variation::MinVariation") and i.endswith("::update_and_check")]
+    if len(ms) != 1:
+        raise AnchorError(f"MinVariation::update_and_check resolves to {ms}")
+    reads = False
+    for g in F.family(ms[0]):
+        for p_ in util.all_places(F.fns[g]):
+            if any(f == "generation" for _, f in mir.proj_fields(p_)):
+                reads = True
+    if reads:
+        r.ok("MinVariation::update_and_check: window", "the sample window is driven by statistics().generation")
+    else:
+        r.fail("MinVariation::update_and_check: window", "the sample window no longer depends on the generation counter (it counts polls): polled several times within one generation it "
+               "fills with copies of one fitness and the criterion fires before `sample` generations have passed", F.loc(ms[0]))
+
+
 def run(ctx):
     ctx.explanation = (
         "Decided for every reward history, under real-number semantics (NaN / overflow / underflow NOT modelled): (S1) sign abstract interpretation shows the "
@@ -492,4 +551,6 @@ def run(ctx):
     ctx.run("C18-S1", "SlotMachine learning state: shape > 0, rate > 0, variance >= 0 hold at construction and are preserved by every writer (sign analysis)", s1_slot_machine_invariants, floor=8)
     ctx.run("C18-S2", "distribution sampler arguments: gamma shape/scale > 0, normal std >= 0, no division by a possibly-zero value on the sampling path", s2_sampler_arguments, floor=3)
     ctx.run("C18-S3", "rewards: distance reward >= 0, performance multiplier within its documented constant set, product >= 0", s3_reward_range, floor=3)
+    ctx.run("C18-S4", "relative fitness distance is |a - b| / max(|a|, |b|) (bounded), canonical expression", s4_relative_distance_bounded, floor=1)
+    ctx.run("C18-V3", "variation window is addressed by the generation counter", v3_window_per_generation, floor=1)
     ctx.run("C18-A1", "arg-max selection compares samples with their true order (ties random)", a1_argmax_comparator, floor=4)
